@@ -47,6 +47,21 @@ def legs(tier):
     return out
 
 
+def interpreter_state():
+    """Interpreter-wide settings that an observation has no business changing."""
+    import threading
+    return (gc.isenabled(), gc.get_threshold(), sys.getswitchinterval(), sys.gettrace(), sys.getprofile(),
+            sys.getrecursionlimit(), threading.gettrace() if hasattr(threading, "gettrace") else None,
+            getattr(sys, "tracebacklimit", "unset"), sys.flags.dev_mode)
+
+
+def restore_state(st):
+    if st[0]:
+        gc.enable()
+    else:
+        gc.disable()
+
+
 class Registry(object):
     def __init__(self):
         self.wr = []
@@ -73,6 +88,7 @@ class CountingObserver(object):
         # note: this frame is part of the running stack for probe points, so it must look the same
         # for every repetition (no per-iteration context managers, same line)
         prev = None
+        before = interpreter_state()
         with warnings.catch_warnings():
             warnings.simplefilter("ignore")
             for r in range(self.rep):
@@ -80,6 +96,10 @@ class CountingObserver(object):
                 if differ:
                     self.problems.append("%s: two consecutive extractions of an unchanged target differ" % what)
         self.nextract += self.rep
+        after = interpreter_state()
+        if after != before:
+            self.problems.append("%s: extraction changed interpreter-wide state %r -> %r" % (what, before, after))
+            restore_state(before)
         return prev
 
     def _summary(self, st, k):
@@ -214,10 +234,15 @@ def run_once(fn, kind, prefix, obs):
     """drive() with tracked managers; returns (trace, weakrefs, npoints)."""
     old = ps.Rt
     ps.Rt = TRt
+    gc_off = obs is not None and getattr(obs, "rep", 1) == 3
+    if gc_off:
+        gc.disable()   # an application may run with the collector off: extraction must leave it off
     try:
         rt, n, outcome = ps.drive(fn, kind, prefix, obs)
     finally:
         ps.Rt = old
+        if gc_off:
+            gc.enable()
     tr = trace_of(rt, outcome)
     wrs = list(rt.wrs) + list(obs.wr if obs is not None else [])
     rt.observer = None
